@@ -170,10 +170,14 @@ class Moment(Condition):
         return True  # noqa: B901
 
     def __subscribe__(self, waiter: Coroutine, interrupt: CoreInterrupt):
-        self._transition.__subscribe__(waiter, interrupt)
+        # once the moment has passed it never triggers again
+        if __USIM_STATE__.loop.time <= self.date:
+            self._transition.__subscribe__(waiter, interrupt)
 
     def __unsubscribe__(self, waiter: Coroutine, interrupt: CoreInterrupt):
-        self._transition.__unsubscribe__(waiter, interrupt)
+        # there is no subscription to undo if the moment had already passed
+        if interrupt.scheduled or (waiter, interrupt) in self._transition._waiting:
+            self._transition.__unsubscribe__(waiter, interrupt)
 
     def __repr__(self):
         return f'{self.__class__.__name__}(date={self.date})'
